@@ -43,6 +43,15 @@ FFT_SPACE = StateSpace(["mingus.extra.fft"])
 
 from mc.checks import c15_api as api                                   # noqa: E402
 
+# class-level state of the container / MIDI classes (class attributes, module data, mutable defaults): restored
+# before every arguments / instances / copies case, so that a class-level leak found by one case cannot colour
+# the next one.  (extra.tunings is left out: its only module state is the tuning registry, which no operation in
+# the alphabets writes -- add_tuning is excluded -- and which holds several hundred objects.)
+CLS_SPACE = StateSpace(["mingus.containers.note", "mingus.containers.note_container", "mingus.containers.bar",
+                        "mingus.containers.track", "mingus.containers.composition", "mingus.containers.suite",
+                        "mingus.containers.instrument", "mingus.midi.midi_track", "mingus.midi.midi_file_out",
+                        "mingus.midi.midi_file_in", "mingus.midi.sequencer", "mingus.midi.sequencer_observer"])
+
 PROPERTY = "C15"
 RULE = ("memo/fft: bfs over the module state (canonical form of every module-level data attribute) under "
         "API-call alphabets, one battery evaluation per distinct state; arguments/instances/copies: one case per "
@@ -133,8 +142,7 @@ FREQ_TABLE = [T(FL(440.0), FL(1.0)), T(FL(880.0), FL(0.5)), T(FL(27.5), FL(0.25)
 
 
 def _lib(name):
-    import importlib
-    return importlib.import_module(name)
+    return cold._module(name)
 
 
 def all_keys():
@@ -401,24 +409,39 @@ def run_cold(queries):
     return {"answers": [answers[qkey(q)] for q in queries], "state": state}
 
 
-def cold_answers():
+def ensure_cold(queries):
+    """Make sure the cold interpreter's answers to ``queries`` are known (one batch of spawned interpreters for
+    everything that is missing).  Every batch also returns the cold module state, which must equal the state this
+    process captured at import time."""
     if _COLD["answers"] is None:
-        qs = all_queries()
-        res = run_cold(qs)
-        _COLD["answers"] = {qkey(q): a for q, a in zip(qs, res["answers"])}
+        _COLD["answers"] = {}
+    ans = _COLD["answers"]
+    missing, seen = [], set()
+    for q in queries:
+        k = qkey(q)
+        if k not in ans and k not in seen:
+            seen.add(k)
+            missing.append(q)
+    if missing or _COLD["state"] is None:
+        res = run_cold(missing)
+        for q, a in zip(missing, res["answers"]):
+            ans[qkey(q)] = a
         _COLD["state"] = res["state"]
         if rkey(res["state"]) != SPACE.cold_key:
             raise engine.HarnessError("the module state captured in this process at import time is not the state of a "
                                       "cold interpreter (something called the library before the check was imported)")
-    return _COLD["answers"]
+    return ans
+
+
+def cold_answers():
+    return ensure_cold(all_queries())
 
 
 def cold_answer(q):
-    ans = cold_answers()
+    ans = _COLD["answers"]
     k = qkey(q)
-    if k not in ans:
-        res = run_cold([q])
-        ans[k] = res["answers"][0]
+    if ans is None or k not in ans:
+        ans = ensure_cold([q])
     return ans[k]
 
 
@@ -472,7 +495,8 @@ class LiveState(object):
 
     def canon(self):
         if self.key is None:
-            self.key = hashlib.sha1(rkey(self.space.render_live()).encode()).hexdigest()
+            self.live = self.space.discover()
+            self.key = hashlib.sha1(rkey(self.space.render_live(compact=True, live=self.live)).encode()).hexdigest()
         return self.key
 
 
@@ -516,6 +540,7 @@ def short(q):
 
 
 _BATTERY_OK = {"memo": set(), "fft": set()}
+_BATTERY_BAD = {}
 
 
 class MemoSpec(BfsSpec):
@@ -539,10 +564,15 @@ class MemoSpec(BfsSpec):
 
     def actions(self):
         if self._acts is None:
+            # "scribble" = call, compare with the cold answer, modify the returned value, call again: it contains
+            # everything the plain variant checks, so a query whose answer holds a list/dict only gets that variant
             acts = []
-            for q in memo_actions(self.keys, self.with_fft):
-                acts.append({"q": q, "v": "plain"})
-            for q in memo_actions(self.keys, self.with_fft):
+            qs = memo_actions(self.keys, self.with_fft)
+            ensure_cold(qs)
+            for q in qs:
+                if not _has_mutable(cold_answer(q)["r"]):
+                    acts.append({"q": q, "v": "plain"})
+            for q in qs:
                 if _has_mutable(cold_answer(q)["r"]):
                     acts.append({"q": q, "v": "scribble"})
             self._acts = acts
@@ -582,7 +612,7 @@ class MemoSpec(BfsSpec):
         S = engine.S
         key = st.canon()
         diff = []
-        live = SPACE.discover()
+        live = st.live
         for slot in sorted(live):
             if slot not in SPACE.cold:
                 diff.append("/".join(slot[1:]) + "+")
@@ -602,14 +632,21 @@ class MemoSpec(BfsSpec):
         if key in _BATTERY_OK["memo"]:
             S.count("memo_battery_skipped_same_state")
             return
-        bad = compare_battery(SPACE, battery(), "battery")
-        S.count("memo_battery_evaluations")
-        if not bad:
-            _BATTERY_OK["memo"].add(key)
-            return
-        q, want, got = bad[0]
+        # the battery's verdict is a function of the canonical state, so a failing state is remembered as well
+        bad = _BATTERY_BAD.get(key)
+        if bad is None:
+            bad = compare_battery(SPACE, battery(), "battery")
+            S.count("memo_battery_evaluations")
+            if not bad:
+                _BATTERY_OK["memo"].add(key)
+                return
+            bad = _BATTERY_BAD[key] = [(q, w, g) for q, w, g in bad[:6]] + [None] * max(0, len(bad) - 6)
+        real = [x for x in bad if x is not None]
+        q, want, got = real[0]
+        bad_n = len(bad)
+        bad = real
         S.problem("battery: " + short(q), want, got,
-                  detail={"differing_battery_answers": len(bad), "first": [short(x[0]) for x in bad[:6]], "warm": diff[:8]},
+                  detail={"differing_battery_answers": bad_n, "first": [short(x[0]) for x in bad[:6]], "warm": diff[:8]},
                   tags={"kind": "battery", "query": short(q)})
 
     def canon(self, st):
@@ -646,6 +683,9 @@ def fft_battery():
     return FFT_BATTERY
 
 
+_FFT_WANT = {}
+
+
 class FftSpec(BfsSpec):
     """State = module state of extra.fft (the cursor ``_last_asked`` and the table); canon = sha1 of its full
     canonical rendering, which is everything ``_find_log_index`` reads."""
@@ -669,13 +709,20 @@ class FftSpec(BfsSpec):
     def step(self, st, act, check=True):
         S = engine.S
         st.key = None
-        q = Q("mingus.extra.fft", "_find_log_index", {"hex": act[1]})
-        ok, val, _ = engine.with_step_budget(call_query, (q,), budget=20000)
+        f = float.fromhex(act[1])
+        fn = _lib("mingus.extra.fft")._find_log_index
+        try:
+            ok, val = True, engine.with_step_budget(fn, (f,), budget=20000)
+        except engine.StepBudgetExceeded:
+            raise
+        except Exception as e:                                          # noqa -- an exception is an observable answer
+            ok, val = False, e
         if check:
             S.trans(1)
-            want = cold_answer(q)["r"]
+            want = _FFT_WANT.get(act[1])
+            if want is None:
+                want = _FFT_WANT[act[1]] = cold_answer(Q("mingus.extra.fft", "_find_log_index", {"hex": act[1]}))["r"]
             got = render(val)
-            f = float.fromhex(act[1])
             tab = FFT_SPACE.cold[("mod", "mingus.extra.fft", "_log_cache")]
             S.count("fft_cold_matches_bisect" if want == bisect_spec(tab, f) else "fft_cold_differs_from_bisect")
             if got != want:
@@ -703,11 +750,13 @@ class FftSpec(BfsSpec):
 
 def _memo_runner(case):
     spec = MemoSpec(case["keys"], case["fft"])
+    ensure_cold(battery() + [a["q"] for a in case["history"]])
     engine.bfs_execute(spec, case["history"], check_prefix=True)
 
 
 def _fft_runner(case):
     spec = FftSpec(case["tier"])
+    ensure_cold(fft_battery() + [Q("mingus.extra.fft", "_find_log_index", {"hex": a[1]}) for a in case["history"]])
     engine.bfs_execute(spec, case["history"], check_prefix=True)
 
 
@@ -783,6 +832,7 @@ def run_arguments(case):
     S = engine.S
     ensure_tmp()
     SPACE.install_cold()
+    CLS_SPACE.install_cold()
     entry = catalogue()[(case[0], case[1])]
     ow = entry["owner"]
     kwargs = build_kwargs(entry, case[2])
@@ -904,6 +954,7 @@ def run_instances(case):
     S = engine.S
     ensure_tmp()
     SPACE.install_cold()
+    CLS_SPACE.install_cold()
     ow = _owner(case[0])
     a = ow.make()
     b = ow.make()
@@ -951,6 +1002,7 @@ def run_copies(case):
     S = engine.S
     ensure_tmp()
     SPACE.install_cold()
+    CLS_SPACE.install_cold()
     ow = _owner(case[0])
     orig = COPY_SOURCES[case[0]]()
     cp = ow.target(orig)
